@@ -80,6 +80,8 @@ FAMILIES = {
     "renamed-entry-treated-as-file": "a renamed entry whose kind changed, or a renamed symlink whose target changed, is re-uploaded as a (empty) regular file",
     "renamed-file-mode-change-lost": "a file renamed and chmod-ed in one revision (same text) keeps its old executable bit on the remote",
     "rename-across-ignore-boundary-nosuchfile": "a rename with exactly one side ignored addresses a remote path that was never uploaded: NoSuchFile",
+    "rename-onto-deleted-directory-readerror": "an entry takes the path of a directory removed in the same delta; the deferred rmdir runs after finish_renames: ReadError",
+    "delete-directory-with-ignored-content-directorynotempty": "a removed directory still holds ignored remote content: the deferred rmdir raises DirectoryNotEmpty",
     "full-upload-keeps-stale-paths": "upload --full onto an existing remote never deletes paths that left the tree",
 }
 
@@ -428,6 +430,12 @@ def classify(mode, err, delta, ents, before, names, got, exp, from_kinds):
         if err == "FileExists" and any(tree.get(c.path[1], ("?",))[0] == "l" and not is_ign(names, c.path[1])
                                        for c in delta.modified):
             return "incremental-symlink-retarget-fileexists"
+        removed_dirs = {c.path[0] for c in delta.removed if c.kind[0] == "directory" and not is_ign(names, c.path[0])}
+        if err == "ReadError" and any(n in removed_dirs for _, n in ren):
+            return "rename-onto-deleted-directory-readerror"
+        if err == "DirectoryNotEmpty" and any(is_ign(names, p) and any(p.startswith(d + "/") for d in removed_dirs)
+                                              for p in before):
+            return "delete-directory-with-ignored-content-directorynotempty"
         if err == "NoSuchFile" and any(is_ign(names, o) != is_ign(names, n) for o, n in ren):
             return "rename-across-ignore-boundary-nosuchfile"
         if any(from_kinds.get(c.path[0]) != tree.get(c.path[1], ("?",))[0]
@@ -563,6 +571,7 @@ SCRIPTS = {
     "kind-changes": [[("file", "a", "1"), ("mkdir", "b"), ("ln", "d", "t1")],
                      [("rm!", "a"), ("mkdir", "a"), ("rm!", "b"), ("ln", "b", "t2"), ("rm!", "d"), ("file", "d", "9")]],
     "mode-and-text": [[("file", "a", "1"), ("file", "b", "2")], [("chmod", "a"), ("file", "b", "22")], [("chmod", "a")]],
+    "child-replaces-parent": [[("mkdir", "d"), ("file", "d/e", "1")], [("mv", "d/e", "swaptmp"), ("rm", "d"), ("mv", "swaptmp", "d")]],
     "rename-modified": [[("file", "a", "1"), ("mkdir", "d")], [("file", "a", "11"), ("mv", "a", "d/b")]],
 }
 
